@@ -1330,11 +1330,8 @@ Qed.
 Definition to_result (r : option string) : dresult :=
   match r with Some n => DName n | None => DNull end.
 
-Lemma or_null_nonempty l r : ~ In EmptyString l -> (forall y, r = Some y -> In y l) -> or_null r = to_result r.
-Proof.
-  intros NE H. destruct r as [y|]; cbn; auto. destruct (String.eqb y "") eqn:E; auto.
-  apply String.eqb_eq in E. subst. exfalso. apply NE. now apply H.
-Qed.
+Lemma or_null_to_result r : or_null r = to_result r.
+Proof. destruct r; reflexivity. Qed.
 
 Lemma nearest_In fwd l x y : nearest fwd l x (Some y) -> In y l.
 Proof. destruct fwd; cbn; tauto. Qed.
@@ -1342,27 +1339,24 @@ Proof. destruct fwd; cbn; tauto. Qed.
 (* Stepping over lights, groups or locations from ANY name (present or not) gives the
    nearest remaining one, NULL when there is none; never a fault. *)
 Theorem vm_dnext_nearest : forall d op fwd cur, dir_inv d ->
-  ~ In EmptyString (names_by_oper d op) ->
   exists r, vm_dnext d op fwd cur = to_result r /\ nearest fwd (names_by_oper d op) cur r.
 Proof.
-  intros d op fwd cur I NE. exists (steps fwd (names_by_oper d op) cur).
-  pose proof (steps_nearest fwd _ cur (names_by_oper_sorted d op I)) as N. split; auto.
-  unfold vm_dnext. apply (or_null_nonempty (names_by_oper d op)); auto.
-  intros y E. rewrite E in N. now apply nearest_In in N.
+  intros d op fwd cur I. exists (steps fwd (names_by_oper d op) cur).
+  pose proof (steps_nearest fwd _ cur (names_by_oper_sorted d op I)) as N.
+  split; [unfold vm_dnext; apply or_null_to_result|exact N].
 Qed.
 
 (* The same for the members of a group or location, as long as it still exists. *)
 Theorem vm_dnextm_nearest_while_listed : forall d op name fwd cur l, dir_inv d ->
-  set_by_oper d op name = Some l -> ~ In EmptyString l ->
+  set_by_oper d op name = Some l ->
   exists r, vm_dnextm d op name fwd cur = to_result r /\ nearest fwd l cur r.
 Proof.
-  intros d op name fwd cur l I G NE. exists (steps fwd l cur).
+  intros d op name fwd cur l I G. exists (steps fwd l cur).
   assert (S : sorted l).
   { destruct (directory_consistent d I) as [_ [_ [_ [_ [_ [A [B _]]]]]]].
     destruct op; cbn [set_by_oper] in G; [discriminate|now apply (A name l)|now apply (B name l)]. }
-  pose proof (steps_nearest fwd l cur S) as N. split; auto.
-  unfold vm_dnextm, vm_dnextm_gen. rewrite G. apply (or_null_nonempty l); auto.
-  intros y E. rewrite E in N. now apply nearest_In in N.
+  pose proof (steps_nearest fwd l cur S) as N.
+  split; [unfold vm_dnextm, vm_dnextm_gen; rewrite G; apply or_null_to_result|exact N].
 Qed.
 
 (* The repaired dnextm: nearest remaining member, NULL when none is left -- in particular
@@ -1371,12 +1365,11 @@ Definition members_now (d : dir) (op : operand) (name : string) : list string :=
   match set_by_oper d op name with Some l => l | None => [] end.
 
 Theorem vm_dnextm_fixed_nearest : forall d op name fwd cur, dir_inv d ->
-  ~ In EmptyString (members_now d op name) ->
   exists r, vm_dnextm_fixed d op name fwd cur = to_result r /\ nearest fwd (members_now d op name) cur r.
 Proof.
-  intros d op name fwd cur I NE. unfold members_now in *.
+  intros d op name fwd cur I. unfold members_now in *.
   destruct (set_by_oper d op name) as [l|] eqn:G.
-  - destruct (vm_dnextm_nearest_while_listed d op name fwd cur l I G NE) as [r [H1 H2]].
+  - destruct (vm_dnextm_nearest_while_listed d op name fwd cur l I G) as [r [H1 H2]].
     exists r. split; auto. unfold vm_dnextm_fixed, vm_dnextm_gen. unfold vm_dnextm, vm_dnextm_gen in H1.
     now rewrite G in *.
   - exists None. unfold vm_dnextm_fixed, vm_dnextm_gen. rewrite G. split; auto.
